@@ -21,7 +21,7 @@ structure CEnv where
 def ρS (scopes : List (List (String × String))) (x : String) : Option String :=
   scopes.findSome? fun sc => sc.lookup x
 
-def mangleName (mod ident : String) (c : Nat) : String := s!"@{mod}_{ident}{c}"
+def mangleName (mod ident : String) (c : Nat) : String := s!"@{mod}.{ident}.{c}"
 
 /-- `mangleVar` as a pure function. -/
 def freshVar (mod : String) (env : CEnv) (ident : String) : String × CEnv :=
